@@ -181,9 +181,132 @@ let fx_model (p : string array) : string =
   | Panic -> "panic"
   | OOB -> "oob"
 
+
+(* ---------------------------------------------------------------- CFF2 (modes c2 / c2f)
+   The variable charstrings of the source are evaluated by the charstring interpreter of
+   Model/Type2.v (property C18) with the blend scalars of the exact variation model
+   (Model/Variation.v); the charstrings of the instance are evaluated by the same interpreter
+   without a variation tuple (a blend or vsindex operator left in them is an error there). *)
+
+type c2_in = {
+  c_inst : z list; c_regions : ((z * z) * z) list list; c_ivds : z list list; c_vsdef : z list;
+  c_gsubrs : z list list; c_fds : z list list option list; c_fdsel : z list; c_glyphs : z list list;
+  c_hmtx : (int * int) list; c_hv : hvar option;
+  c_mv : (ivstore * ((z * z) * z) list) option; c_vals : z list;
+}
+
+let parse_blist (s : string) : z list list =
+  if s = "." || s = "" then [] else List.map bytes_of_hex (split_on ',' s)
+
+(* the fields from `AC:REGIONS` on start at p.(base) *)
+let parse_c2 (p : string array) (base : int) (inst : z list) : c2_in =
+  let (_, regions) = parse_regions p.(base) in
+  let hv = if p.(base + 8) = "-" then None else
+      match split_on '#' p.(base + 8) with
+      | [rs; ds; adv; lsb] ->
+        let mp h = if h = "-" then None else (match read_dsim (bytes_of_hex h) with Ok m -> Some m | _ -> failwith "dsim") in
+        Some { hv_store = parse_store rs ds; hv_adv = mp adv; hv_lsb = mp lsb }
+      | _ -> failwith "hvar" in
+  { c_inst = inst; c_regions = regions;
+    c_ivds = List.map (fun d -> if d = "." then [] else zints d) (fields '/' p.(base + 1));
+    c_vsdef = zints p.(base + 2);
+    c_gsubrs = parse_blist p.(base + 3);
+    c_fds = List.map (fun f -> if f = "~" then None else Some (parse_blist f)) (split_on '/' p.(base + 4));
+    c_fdsel = zints p.(base + 5);
+    c_glyphs = parse_blist p.(base + 6);
+    c_hmtx = List.map (fun m -> match split_on ':' m with [a; l] -> (int_of_string a, int_of_string l) | _ -> failwith "hmtx")
+        (fields ',' p.(base + 7));
+    c_hv = hv;
+    c_mv = (if Array.length p <= base + 9 || p.(base + 9) = "-" then None else
+              match split_on '#' p.(base + 9) with
+              | rs :: ds :: recs :: _ ->
+                Some (parse_store rs ds, List.map (fun r -> match split_on ',' r with
+                    | [t; o; i] -> ((zs t, zs o), zs i) | _ -> failwith "rec") (fields ';' recs))
+              | _ -> failwith "mvar");
+    c_vals = (if Array.length p <= base + 10 then [] else zints p.(base + 10)) }
+
+let c2_of_input (p : string array) : c2_in =
+  if p.(0) = "c2" then parse_c2 p 2 (List.map (fun k -> zi (clamp14 k)) (ints p.(1)))
+  else parse_c2 p 4 (zints p.(3))
+
+let c2_scalars (c : c2_in) : z option list option list =
+  List.map (fun idxs -> cff2_scalars c.c_regions c.c_inst idxs) c.c_ivds
+
+(* no region the charstrings can use applies at these coordinates *)
+let c2_no_region_applies (c : c2_in) : bool =
+  List.for_all (function
+      | None -> true
+      | Some l -> List.for_all (function None -> true | Some s -> s = Z0) l) (c2_scalars c)
+
+type gres = GOk of cmd list | GErr of string
+
+let cfferr_name (e : cfferr) : string =
+  match e with
+  | EParse p -> "Parse" ^ err_to_string p
+  | EInvalidOperator -> "InvalidOperator" | EInvalidOperand -> "InvalidOperand"
+  | EUnsupportedOperator -> "UnsupportedOperator" | EMissingEndChar -> "MissingEndChar"
+  | EDataAfterEndChar -> "DataAfterEndChar" | ENestingLimitReached -> "NestingLimitReached"
+  | EArgumentsStackLimitReached -> "ArgumentsStackLimitReached"
+  | EInvalidArgumentsStackLength -> "InvalidArgumentsStackLength" | EBboxOverflow -> "BboxOverflow"
+  | EMissingMoveTo -> "MissingMoveTo" | EDuplicateVsIndex -> "DuplicateVsIndex"
+  | EInvalidSubroutineIndex -> "InvalidSubroutineIndex" | EInvalidFontIndex -> "InvalidFontIndex"
+  | ENoLocalSubroutines -> "NoLocalSubroutines" | EInvalidSeacCode -> "InvalidSeacCode"
+  | EVsIndexAfterBlend -> "VsIndexAfterBlend" | EMissingVariationStore -> "MissingVariationStore"
+
+let gres_of (r : cmd list cres) : gres =
+  match r with
+  | COk l -> GOk l
+  | CErr e -> GErr (cfferr_name e)
+  | CPanic -> GErr "panic"
+  | CFuel -> GErr "fuel"
+
+(* glyph gid of the variable source at the case's coordinates *)
+let c2_source_glyph (c : c2_in) (scalars : z option list option list) (gid : int) : gres =
+  gres_of (glyph_cmds (cff2_env Debug c.c_gsubrs c.c_fds c.c_fdsel c.c_glyphs (zi gid) true c.c_vsdef scalars))
+
+(* glyph gid of the instance: no subroutines, no variation tuple *)
+let c2_instance_glyph (c : c2_in) (cs : z list list) (gid : int) : gres =
+  gres_of (glyph_cmds (cff2_env Debug [] (List.map (fun _ -> None) c.c_fds) c.c_fdsel cs (zi gid) false
+                         (List.map (fun _ -> Z0) c.c_fds) []))
+
+let two48f = 281474976710656.0
+let coord_to_float (v : z) : float = z_to_float v /. two48f
+
+let cmd_coords (c : cmd) : char * z list =
+  match c with
+  | MoveTo (x, y) -> ('M', [x; y])
+  | LineTo (x, y) -> ('L', [x; y])
+  | CurveTo (a, b, c, d, e, f) -> ('C', [a; b; c; d; e; f])
+  | Close -> ('Z', [])
+
+let cmds_to_string (l : cmd list) : string =
+  String.concat " " (List.map (fun c -> let (k, vs) = cmd_coords c in
+    String.make 1 k ^ String.concat "," (List.map (fun v ->
+        let (q, r) = z_div_eucl v uNIT in
+        if r = Z0 then z_to_string q else Printf.sprintf "%.6f" (coord_to_float v)) vs)) l)
+
+let gres_to_string (g : gres) : string =
+  match g with GOk l -> "ok:" ^ cmds_to_string l | GErr e -> "er:" ^ e
+
+(* the expected outlines are computed once per case (run, then judge) *)
+let c2_memo : (string * gres list) ref = ref ("", [])
+
+let c2_expected (input : string) (c : c2_in) : gres list =
+  if fst !c2_memo = input then snd !c2_memo else begin
+    let sc = c2_scalars c in
+    let r = List.mapi (fun gid _ -> c2_source_glyph c sc gid) c.c_glyphs in
+    c2_memo := (input, r); r
+  end
+
+let c2_model (input : string) (p : string array) : string =
+  let c = c2_of_input p in
+  Printf.sprintf "T=%s;E=%s" (zlist_to_string c.c_inst)
+    (String.concat "/" (List.map gres_to_string (c2_expected input c)))
+
 let run (input : string) : string =
   let p = Array.of_list (split_on '|' input) in
   match p.(0) with
+  | "c2" | "c2f" -> c2_model input p
   | "cs" -> (match zints p.(1) with
       | [i; s; pk; e] -> "q:" ^ q_to_string (calculate_scalar i s pk e) | _ -> failwith "cs")
   | "rs" -> (match region_scalar (parse_region_axes p.(1)) (zints p.(2)) with
@@ -309,6 +432,34 @@ let judge_glyph (g : gspec) (ds : (float * float) list option) (impl : string) :
            (List.combine cs ip)), None)
   | _, _ -> ([Violation ("outline", "glyph kind changed")], None)
 
+
+(* the MVAR-controlled values `iv` of an instance against source value + exact delta *)
+let judge_mvar (mv : (ivstore * ((z * z) * z) list) option) (vals : z list) (inst : z list) (iv : string list)
+    (add : verdict -> unit) : unit =
+  let exact = Array.make 28 0.0 in
+  List.iteri (fun k v -> if k < 28 then exact.(k) <- z_to_float v) vals;
+  (match mv with
+   | None -> ()
+   | Some (st, recs) ->
+     List.iter (fun ((tg, o), i) ->
+         match adjustment st o i inst, mvar_target tg with
+         | Ok dq, Some ((tgt, _), _) ->
+           let k = (let rec idx l n = match l with [] -> -1 | (_, ((t2, _), _)) :: r -> if t2 = tgt then n else idx r (n + 1) in idx mVAR_TABLE 0) in
+           if k >= 0 then exact.(k) <- exact.(k) +. q_to_float dq
+         | _ -> ()) recs);
+  List.iteri (fun k s ->
+      if k < 28 && s <> "x" then begin
+        let (lo, hi) = if k = 3 || k = 4 then (0, 65535) else (-32768, 32767) in
+        let vhea_field = (k >= 5 && k <= 7) || (k >= 11 && k <= 13) in
+        if vhea_field then begin
+          (* a vhea value either is the nearest integer of the exact value or the property fails *)
+          match cmp_round "mvar-vhea" (Printf.sprintf "MVAR-controlled vhea value %d" k) (int_of_string s) exact.(k) lo hi with
+          | Agree -> ()
+          | _ -> add (Violation ("mvar-vhea", Printf.sprintf "MVAR-controlled vhea value %d: implementation %s, exact value %.6f" k s exact.(k)))
+        end else
+          add (cmp_round "mvar" (Printf.sprintf "MVAR-controlled value %d" k) (int_of_string s) exact.(k) lo hi)
+      end) iv
+
 let judge_e2e (input : string) (impl : string) (model : string) : verdict =
   let p = Array.of_list (split_on '|' input) in
   let e = parse_e2e p in
@@ -376,31 +527,7 @@ let judge_e2e (input : string) (impl : string) (model : string) : verdict =
           (List.combine (List.combine e.glyphs dss) ih)
     end;
     (* MVAR-controlled values *)
-    let iv = split_on ',' (get "M") in
-    let exact = Array.of_list (List.map z_to_float e.vals) in
-    let touched = Array.make 28 false in
-    (match e.mv with
-     | None -> ()
-     | Some (st, recs, _) ->
-       List.iter (fun ((tg, o), i) ->
-           match adjustment st o i e.inst, mvar_target tg with
-           | Ok dq, Some ((tgt, _), _) ->
-             let k = (let rec idx l n = match l with [] -> -1 | (_, ((t2, _), _)) :: r -> if t2 = tgt then n else idx r (n + 1) in idx mVAR_TABLE 0) in
-             if k >= 0 then begin exact.(k) <- exact.(k) +. q_to_float dq; touched.(k) <- true end
-           | _ -> ()) recs);
-    List.iteri (fun k s ->
-        if k < 28 && s <> "x" then begin
-          let (lo, hi) = if k = 3 || k = 4 then (0, 65535) else (-32768, 32767) in
-          let vhea_field = (k >= 5 && k <= 7) || (k >= 11 && k <= 13) in
-          if vhea_field then begin
-            (* a vhea value either is the nearest integer of the exact value or the property fails *)
-            match cmp_round "mvar-vhea" (Printf.sprintf "MVAR-controlled vhea value %d" k) (int_of_string s) exact.(k) lo hi with
-            | Agree -> ()
-            | _ -> add (Violation ("mvar-vhea", Printf.sprintf "MVAR-controlled vhea value %d: implementation %s, exact value %.6f" k s exact.(k)))
-          end else
-            add (cmp_round "mvar" (Printf.sprintf "MVAR-controlled value %d" k) (int_of_string s) exact.(k) lo hi)
-        end) iv;
-    ignore touched;
+    judge_mvar (match e.mv with Some (st, recs, _) -> Some (st, recs) | None -> None) e.vals e.inst (split_on ',' (get "M")) add;
     first_bad (List.rev !vs)
   end
 
@@ -444,6 +571,159 @@ let judge_fx (input : string) (impl : string) (model : string) : verdict =
        if default && z_to_int g.g_xmin = xm && (iaw <> z_to_int g.g_aw || ilsb <> z_to_int g.g_lsb) then
          add (Violation ("default-instance", "metrics at the default coordinates differ from the source"))
      | _ -> ());
+    first_bad (List.rev !vs)
+  end
+
+
+(* ---------------------------------------------------------------- judging CFF2 instances *)
+
+(* "ok:M1,2 L3,4 Z" as allsorts' CFF2Outlines reads the instance *)
+let parse_outline (s : string) : (char * float list) list option =
+  if not (starts_with "ok:" s) then None else
+  Some (List.map (fun c -> (c.[0], List.map float_of_string (fields ',' (String.sub c 1 (String.length c - 1)))))
+          (fields ' ' (strip "ok:" s)))
+
+let judge_c2 (input : string) (impl : string) (_model : string) : verdict =
+  let p = Array.of_list (split_on '|' input) in
+  let c = c2_of_input p in
+  let expected = c2_expected input c in
+  let all_source_fail = List.for_all (function GErr _ -> true | GOk _ -> false) expected in
+  if is_err impl then
+    (* instance() refuses the font: some source charstring must be unusable *)
+    (if List.exists (function GErr _ -> true | GOk _ -> false) expected then Agree
+     else Mismatch "the implementation fails where every source charstring evaluates in the model")
+  else if not (is_ok impl) then Mismatch "unexpected result"
+  else begin
+    ignore all_source_fail;
+    let f = kv (strip "ok:" impl) in
+    let get k = try List.assoc k f with Not_found -> "" in
+    let vs = ref [] in
+    let add v = vs := v :: !vs in
+    if get "T" <> zlist_to_string c.c_inst then add (Mismatch "normalised tuple differs");
+    let tags = ints (get "TAGS") in
+    List.iter (fun t -> if ends_in_var t then add (Violation ("var-table-kept", Printf.sprintf "table %08x in the instance" t))) tags;
+    if p.(0) = "c2" then begin
+      let src = [0x43464632; 0x4F532F32; 0x636D6170; 0x68656164; 0x68686561; 0x686D7478; 0x6D617870; 0x6E616D65; 0x706F7374] in
+      if List.sort compare tags <> src then add (Mismatch "the set of tables of the instance differs from the source's static tables")
+    end;
+    if get "VS" <> "0" then add (Mismatch "the CFF2 table of the instance still has a VariationStore");
+    let cs = parse_blist (get "CS") in
+    let os = split_on '/' (get "O") in
+    let n = List.length c.c_glyphs in
+    if List.length cs <> n then add (Violation ("outline", "number of glyphs changed"))
+    else begin
+      let exact_default = c2_no_region_applies c in
+      List.iteri (fun gid exp ->
+          let got = c2_instance_glyph c cs gid in
+          (match exp, got with
+           | GErr _, _ -> ()    (* an ill-formed source charstring: nothing is specified for it *)
+           | GOk _, GErr "MissingVariationStore" ->
+             add (Violation ("not-static", Printf.sprintf "glyph %d: the charstring of the instance still contains a blend operator" gid))
+           | GOk _, GErr e ->
+             add (Violation ("outline", Printf.sprintf "glyph %d: the charstring of the instance does not evaluate (%s) although the source does" gid e))
+           | GOk el, GOk gl ->
+             let ec = List.map cmd_coords el and gc = List.map cmd_coords gl in
+             if List.map fst ec <> List.map fst gc then
+               add (Violation ("outline", Printf.sprintf "glyph %d: the instance draws different segments (%s) than the source (%s)" gid
+                                 (String.concat "" (List.map (fun (k, _) -> String.make 1 k) gc))
+                                 (String.concat "" (List.map (fun (k, _) -> String.make 1 k) ec))))
+             else begin
+               let maxabs = List.fold_left (fun a (_, l) -> List.fold_left (fun a v -> Float.max a (Float.abs (coord_to_float v))) a l) 512.0 ec in
+               let per = Float.ldexp 1.0 (-15) +. Float.ldexp maxabs (-19) in
+               (* KNOWN FINDING cff2-operand-range: a charstring operand is an i16 or a 16.16 number.
+                  When default + sum(scalar * delta) leaves that range the instance cannot hold it:
+                  From<f32> for StackValue saturates whole numbers (`as i16`) and wraps fractional
+                  ones (Fixed::from), silently.  Operands are the steps between consecutive points:
+                  a step of 32767 or more on an axis marks the glyph as outside the domain. *)
+               let out_of_range =
+                 let px = ref 0.0 and py = ref 0.0 and bad = ref false in
+                 List.iter (fun (_, l) ->
+                     let rec go = function
+                       | x :: y :: r ->
+                         let fx = coord_to_float x and fy = coord_to_float y in
+                         if Float.abs (fx -. !px) >= 32767.0 || Float.abs (fy -. !py) >= 32767.0 then bad := true;
+                         px := fx; py := fy; go r
+                       | _ -> () in go l) ec;
+                 !bad in
+               let cls2 = if out_of_range then "cff2-operand-range" else "cff2-outline" in
+               let k = ref 0 and pt = ref 0 in
+               let worst = ref None in
+               List.iter2 (fun (_, el) (_, gl) ->
+                   List.iteri (fun i (e, g) ->
+                       incr k;
+                       if i mod 2 = 0 then incr pt;
+                       let d = Float.abs (coord_to_float (z_add g (z_opp e))) in
+                       let tol = 0.001 +. float_of_int !k *. per in
+                       (* no region applies: the operands are the defaults, exact up to the f32 the
+                          blended ones pass through (24 significant bits; whole numbers and short
+                          fractions are exact) *)
+                       let sev = if exact_default && d > float_of_int !k *. Float.ldexp maxabs (-23) then 3
+                         else if d > 1.0 +. tol then 2 else if d > tol then 1 else 0 in
+                       (match !worst with
+                        | Some (s0, d0, _, _, _, _) when s0 > sev || (s0 = sev && d0 >= d) -> ()
+                        | _ -> if sev > 0 then worst := Some (sev, d, !pt - 1, (if i mod 2 = 0 then "x" else "y"), e, g)))
+                     (List.combine el gl)) ec gc;
+               (match !worst with
+                | None -> ()
+                | Some (3, d, ptn, ax, e, g) ->
+                  add (Violation ("default-instance", Printf.sprintf "glyph %d point %d %s: no region applies at these coordinates, yet the instance has %.6f where the source's default master has %.6f (off by %.6f)"
+                                    gid ptn ax (coord_to_float g) (coord_to_float e) d))
+                | Some (2, d, ptn, ax, e, g) ->
+                  add (Violation (cls2, Printf.sprintf "glyph %d point %d %s: instance %.6f, default + sum(scalar * delta) = %.6f: %.3f units apart (more than one unit)"
+                                    gid ptn ax (coord_to_float g) (coord_to_float e) d))
+                | Some (_, _, _, _, _, _) when out_of_range -> ()
+                | Some (_, d, ptn, ax, e, g) ->
+                  add (Mismatch (Printf.sprintf "glyph %d point %d %s: instance %.6f, exact %.6f: %.4f apart (outside the rounding the model allows for)"
+                                   gid ptn ax (coord_to_float g) (coord_to_float e) d)))
+             end);
+          (* what allsorts itself draws from the instance (property C18) against the model's reading *)
+          (match got, (if gid < List.length os then parse_outline (List.nth os gid) else None) with
+           | GOk gl, Some ol ->
+             let gc = List.map cmd_coords gl in
+             (* allsorts accumulates the current point in f32: the error of a coordinate depends on
+                the largest magnitude the path went through, not on the coordinate itself *)
+             let gmax = List.fold_left (fun a (_, l) -> List.fold_left (fun a v -> Float.max a (Float.abs (coord_to_float v))) a l) 0.0 gc in
+             let ftol = 0.015625 +. gmax /. 4096.0 in
+             if List.length gc <> List.length ol
+             || not (List.for_all2 (fun (k, l) (k2, l2) -> k = k2 && List.length l = List.length l2 &&
+                                                             List.for_all2 (fun a b -> Float.abs (coord_to_float a -. b) <= ftol) l l2) gc ol)
+             then begin
+               let where = ref "" in
+               (try List.iteri (fun i ((k, l), (k2, l2)) ->
+                    if !where = "" then begin
+                      if k <> k2 || List.length l <> List.length l2 then where := Printf.sprintf "command %d: %c vs %c" i k k2
+                      else List.iter2 (fun a b -> if !where = "" && Float.abs (coord_to_float a -. b) > ftol then
+                                          where := Printf.sprintf "command %d: model %.6f, CFF2Outlines %.6f" i (coord_to_float a) b) l l2
+                    end) (List.combine gc ol) with Invalid_argument _ -> where := Printf.sprintf "%d vs %d commands" (List.length gc) (List.length ol));
+               add (Mismatch (Printf.sprintf "glyph %d: CFF2Outlines draws the instance differently from the model (%s)" gid !where))
+             end
+           | GOk gl, None ->
+             (* the outline builder refuses coordinates outside i16 (its bounding box) *)
+             let fits = List.for_all (fun (_, l) -> List.for_all (fun v -> Float.abs (coord_to_float v) < 32767.0) l) (List.map cmd_coords gl) in
+             if fits || List.nth os gid <> "er:BboxOverflow" then
+               add (Mismatch (Printf.sprintf "glyph %d: CFF2Outlines rejects the charstring of the instance" gid))
+           | _, _ -> ()))
+        expected
+    end;
+    (* metrics: HVAR deltas when the font has HVAR, otherwise the source's hmtx *)
+    let ih = List.map (fun m -> match split_on ':' m with [a; l] -> (int_of_string a, int_of_string l) | _ -> failwith "metric") (fields ',' (get "H")) in
+    if List.length ih <> List.length c.c_hmtx then add (Violation ("metrics", "number of metrics differs from the number of glyphs"))
+    else List.iteri (fun gid ((aw, lsb), (iaw, ilsb)) ->
+        match c.c_hv with
+        | None ->
+          if iaw <> aw || ilsb <> lsb then
+            add (Violation ("metrics", Printf.sprintf "glyph %d: the font has no HVAR, yet advance/lsb %d/%d became %d/%d" gid aw lsb iaw ilsb))
+        | Some h ->
+          (match advance_delta h c.c_inst (zi gid) with
+           | Ok dq -> add (cmp_round "metrics" (Printf.sprintf "glyph %d advance (HVAR)" gid) iaw (float_of_int aw +. q_to_float dq) 0 65535)
+           | _ -> add (Mismatch "HVAR advance delta fails in the model"));
+          (match lsb_delta h c.c_inst (zi gid) with
+           | Ok (Some dq) -> add (cmp_round "metrics" (Printf.sprintf "glyph %d lsb (HVAR)" gid) ilsb (float_of_int lsb +. q_to_float dq) (-32768) 32767)
+           | Ok None -> if ilsb <> lsb then add (Mismatch (Printf.sprintf "glyph %d: lsb changed without an HVAR lsb mapping" gid))
+           | _ -> add (Mismatch "HVAR lsb delta fails in the model")))
+        (List.combine c.c_hmtx ih);
+    (* MVAR-controlled values (the source values are part of the input; older lines have none) *)
+    if c.c_vals <> [] then judge_mvar c.c_mv c.c_vals c.c_inst (split_on ',' (get "M")) add;
     first_bad (List.rev !vs)
   end
 
@@ -519,8 +799,21 @@ let judge (input : string) (impl : string) (model : string) : verdict =
         cmp_f "item-variation" i m (Float.ldexp 1.0 (-10) +. Float.ldexp mag (-19)) (1.0 +. Float.ldexp mag (-12))
     | "e2e" -> judge_e2e input impl model
     | "fx" -> judge_fx input impl model
+    | "c2" | "c2f" -> judge_c2 input impl model
     | _ -> default_judge input impl model
 
 let tag (input : string) (out : string) : string =
   let mode = match String.index_opt input '|' with Some i -> String.sub input 0 i | None -> input in
+  if mode = "c2" || mode = "c2f" then begin
+    (* where the coordinates lie, whether any region applies, which metrics tables the font has *)
+    let p = Array.of_list (split_on '|' input) in
+    let c = c2_of_input p in
+    let frac = List.exists (function
+        | Some l -> List.exists (function Some s -> s <> Z0 && s <> z_of_string "4294967296" | None -> false) l
+        | None -> false) (c2_scalars c) in
+    mode ^ "-" ^ (if List.for_all (fun v -> v = Z0) c.c_inst then "default"
+                  else if c2_no_region_applies c then "noregion"
+                  else if frac then "between" else "atpeak")
+    ^ (if c.c_hv <> None then "+hvar" else "") ^ (if c.c_mv <> None then "+mvar" else "")
+  end else
   mode ^ "-" ^ (if starts_with "err" out then "err" else if starts_with "panic" out then "panic" else "ok")
